@@ -98,10 +98,10 @@ func coqCfg(sp *Spec) string {
 		delay = append(delay, "PRecvHeader")
 	}
 	_, tryMs := sp.effectiveTimeouts()
-	return fmt.Sprintf("{| c_oneway := %s; c_data := %s; c_trailers := %s; c_route := %s; c_nhosts := %s; c_retry_on := %s; c_num_retries := %s; c_codes := %s; c_try_timeout := %s; c_max_retries := %s; c_recv := %s; c_send := %s; c_pool := %s; c_delay := %s; c_snd_err_hdr := %s; c_snd_err_data := %s; c_snd_err_trl := %s; c_http := %s; c_nohost_from := %s; c_late_reset := %s |}",
+	return fmt.Sprintf("{| c_oneway := %s; c_data := %s; c_trailers := %s; c_route := %s; c_nhosts := %s; c_retry_on := %s; c_num_retries := %s; c_codes := %s; c_try_timeout := %s; c_max_retries := %s; c_recv := %s; c_send := %s; c_pool := %s; c_delay := %s; c_snd_err_hdr := %s; c_snd_err_data := %s; c_snd_err_trl := %s; c_http := %s; c_nohost_from := %s; c_late_reset := %s; c_disable_retry := %s |}",
 		CoqBool(sp.Oneway), CoqBool(sp.HasData), CoqBool(sp.HasTrailers), route, CoqNat(sp.NHosts), CoqBool(sp.RetryOn), CoqNat(sp.NumRetries),
 		CoqList(codes), CoqBool(tryMs > 0), CoqZ(int64(sp.MaxRetries)), CoqList(recv), CoqList(send), CoqList(pool), CoqList(delay),
-		CoqBool(sp.senderFails("hdr")), CoqBool(sp.senderFails("data")), CoqBool(sp.senderFails("trl")), CoqBool(sp.Flavour == "http"), coqNoHost(sp), CoqBool(sp.ResetUpOn != ""))
+		CoqBool(sp.senderFails("hdr")), CoqBool(sp.senderFails("data")), CoqBool(sp.senderFails("trl")), CoqBool(sp.Flavour == "http"), coqNoHost(sp), CoqBool(sp.ResetUpOn != ""), CoqBool(sp.DisableRetry))
 }
 
 func coqNoHost(sp *Spec) string {
